@@ -13,6 +13,8 @@ import time
 
 VERIF = os.path.dirname(os.path.dirname(os.path.abspath(__file__)))
 PY = os.path.join(VERIF, '.venv', 'bin', 'python')
+if not os.path.exists(PY):
+    PY = '/verif/.venv/bin/python'       # running from a snapshot of /verif (vp run)
 REPO = os.environ.get('VERIF_REPO', '/repo')
 JOBS = int(os.environ.get('VERIF_JOBS', str(os.cpu_count() or 4)))
 
